@@ -41,3 +41,14 @@ MODULE_STATE = {
     'jesse.services.web.origins': 'dashboard only',
 }
 MUTATORS = ('append', 'extend', 'add', 'update', 'clear', 'pop', 'popitem', 'setdefault', 'insert', 'remove', 'discard', 'appendleft')
+
+# functions on the session path that are wrapped by a memoising decorator (the engine treats decorators as transparent, so these are
+# accounted for here): their results do not depend on anything a session configures
+MEMOISED = {
+    'jesse.helpers.app_mode': 'process-wide mode', 'jesse.helpers.is_live': 'process-wide mode', 'jesse.helpers.is_livetrading': 'process-wide mode',
+    'jesse.helpers.is_optimizing': 'process-wide mode', 'jesse.helpers.is_paper_trading': 'process-wide mode',
+    'jesse.helpers.opposite_side': 'pure function of its argument', 'jesse.helpers.opposite_type': 'pure function of its argument',
+    'jesse.helpers.side_to_type': 'pure function of its argument', 'jesse.helpers.type_to_side': 'pure function of its argument',
+    'jesse.models.FuturesExchange.find_order_index': 'numba compile cache, not a result memo',
+    'jesse.models.Position._min_qty': 'live mode only (exchange precision table)',
+}
